@@ -312,6 +312,19 @@ class RestAPI(object):
                     "Message body {} does not contain valid JSON".format(data)
                 )
 
+            """
+            The parameters of every action are the members of a JSON object, so
+            a body that is not valid JSON, or is some other JSON value, is a
+            client error rather than something the action handlers (which all
+            begin with params.get()) should trip over and report as an
+            InternalError.
+            """
+            if not isinstance(params, dict):
+                return aws_error(
+                    "SerializationException",
+                    "Request body must be a JSON object"
+                ), 400
+
             # ------------------------------------------------------------------
 
             """
